@@ -362,7 +362,7 @@ def step (P : Program) (s : St) : Event → Option St
       else none
   | .tail live late =>
     if s.returned && live == 0 && late == 0 && (!s.started || s.dbIter == s.epoch) then
-      some { s with target := none, status := fun _ => .idle }
+      some { s with target := none, started := false, status := fun _ => .idle }
     else none
   | .mutate slot val =>
     if s.target.isNone then some { s with env := upd s.env slot val } else none
